@@ -227,6 +227,8 @@ def toptree_state(facts, cls, res):
     R = "C12.5.state-between-stages"
     cmap = effects.container_map(facts)
     state = set()
+    viaparam = set()
+    local_state = set()
     fields = {f["name"] for f in facts.cls(cls)["fields"]}
     for fn, sr, call, op, slots in c02.toptree_calls(facts, cls, cmap):
         for (role, part, io), sl in zip(coherence.ROLES[op], slots):
@@ -237,6 +239,31 @@ def toptree_state(facts, cls, res):
                 for y in walk(n):
                     if y.get("k") == "MemberExpr" and y.get("name") in fields:
                         state.add(y["name"])
+                    pidx = [i for i, p_ in enumerate(fn["params"]) if y.get("k") == "DeclRefExpr" and p_["did"] is not None and p_["did"] == y.get("did")]
+                    if pidx:
+                        viaparam.add((fn["name"], pidx[0], part))
+    # expansions handed to the stage functions as arguments: where do the callers keep them?
+    for (fname, idx, part) in sorted(viaparam):
+        for m in facts.methods_of(cls):
+            b = tbf.body(m)
+            if b is None:
+                continue
+            for x in walk(b):
+                if x.get("k") in ("CallExpr", "CXXMemberCallExpr") and tbf.callee_name(x) == fname and tbf.call_base(x) is None or \
+                   (x.get("k") == "CXXMemberCallExpr" and tbf.callee_name(x) == fname and strip(tbf.call_base(x)).get("k") == "CXXThisExpr"):
+                    args = tbf.call_args(x)
+                    if idx >= len(args):
+                        continue
+                    a = strip(args[idx])
+                    if a.get("k") == "MemberExpr" and a.get("name") in fields:
+                        state.add(a["name"])
+                    elif a.get("k") == "DeclRefExpr" and any(v.get("k") == "VarDecl" and v.get("did") == a.get("did") for v in walk(b)):
+                        res.violation(R, tbf.rel(facts.path_of(x)), m["qname"], "local-expansions:%s:%s" % (fname, a.get("name")), x["l"][1],
+                                      "the %s expansions of the virtual levels handed to %s() are the local variable '%s' of %s(): they do not survive the call, so a staged sequence of execute() calls (M2M, then M2L, then L2L) transfers and pushes down zeros instead of what the earlier stage produced" % (part, fname, a.get("name"), m["name"]))
+                        local_state.add(a.get("name"))
+    if local_state and len(state) < 2:
+        res.instance(R, cls, "src/algorithms/periodic", "expansions kept in locals: %s" % sorted(local_state))
+        return
     if len(state) < 2:
         raise AnalysisBroken("%s: virtual-level expansion members not identified (%s)" % (cls, sorted(state)))
     res.instance(R, cls, "src/algorithms/periodic", "state carried between stages: %s" % sorted(state))
